@@ -1206,6 +1206,119 @@ structure PoolsLive (cfg : Cfg) (asgs : List Asg) (s : Store) (n : Nat) (done to
 theorem poolLive_frame {cfg : Cfg} {s s1 : Store} {q : Pool} (h : PoolLive cfg s q) (hf : ∀ o ∈ ownP q, s1.stOf o = s.stOf o) : PoolLive cfg s1 q :=
   ⟨h.inv, h.nc, h.nd, busyAll_frame h.busy hf⟩
 
+/-- what the head pool of the loop is about to be handed: assignments that are fine, on operators nobody owns yet -/
+theorem poolsLive_head {cfg : Cfg} {sus : List (Nat × Nat)} {asgs : List Asg} {s : Store} {n : Nat} {done rest : List Pool} {p : Pool}
+    (hJ : PoolsLive cfg asgs s n done (p :: rest)) :
+    (ownP p ++ (cmdsFor done.length sus asgs).asgs.flatMap (·.ops)).Nodup ∧ AsgsOK s (cmdsFor done.length sus asgs).asgs ∧
+    (∀ a ∈ (cmdsFor done.length sus asgs).asgs, a ∈ pendFor asgs done.length) := by
+  have hcm : (cmdsFor done.length sus asgs).asgs = asgs.filter (·.pool == done.length) := rfl
+  have hglob := (nodup_iff_count_le_one _).mp hJ.nd
+  have hsubp : ∀ a ∈ asgs.filter (·.pool == done.length), a ∈ pendFor asgs done.length := by
+    intro a ha
+    obtain ⟨ha1, ha2⟩ := List.mem_filter.mp ha
+    have hpe : a.pool = done.length := by simpa using ha2
+    exact List.mem_filter.mpr ⟨ha1, by simp only [decide_eq_true_eq]; omega⟩
+  refine ⟨?_, ?_, by rw [hcm]; exact hsubp⟩
+  · rw [hcm]
+    apply (nodup_iff_count_le_one _).mpr
+    intro o
+    have := hglob o
+    simp only [List.flatMap_append, List.flatMap_cons, List.count_append, count_pend_split asgs done.length o] at this
+    show (ownP p ++ opsOf (asgs.filter (·.pool == done.length))).count o ≤ 1
+    simp only [List.count_append]
+    omega
+  · rw [hcm]
+    intro a ha
+    exact hJ.pend a (hsubp a ha)
+
+/-- one iteration of the loop over pools: the invariant is kept, and operators owned by the other pools or still pending are not touched -/
+theorem poolsLive_step {cfg : Cfg} {sus : List (Nat × Nat)} {asgs : List Asg} {s s1 : Store} {n n1 : Nat} {done rest : List Pool} {p p1 : Pool} {r : List Res}
+    (hJ : PoolsLive cfg asgs s n done (p :: rest)) (hp : poolTick cfg s p n (cmdsFor done.length sus asgs) = .ok (s1, p1, n1, r)) :
+    PoolsLive cfg asgs s1 n1 (done ++ [p1]) rest ∧ n ≤ n1 ∧
+    (∀ o, (done.flatMap ownP).count o + (rest.flatMap ownP).count o + (opsOf (pendFor asgs (done.length + 1))).count o ≥ 1 → s1.stOf o = s.stOf o) := by
+  obtain ⟨gp, lp⟩ := hJ.pools p (by simp)
+  have hcm : (cmdsFor done.length sus asgs).asgs = asgs.filter (·.pool == done.length) := rfl
+  have hglob := (nodup_iff_count_le_one _).mp hJ.nd
+  -- counts in the global list
+  have hcount : ∀ o, (done.flatMap ownP).count o + (ownP p).count o + (rest.flatMap ownP).count o +
+      ((opsOf (asgs.filter (·.pool == done.length))).count o + (opsOf (pendFor asgs (done.length + 1))).count o) ≤ 1 := by
+    intro o
+    have := hglob o
+    simp only [List.flatMap_append, List.flatMap_cons, List.count_append, count_pend_split asgs done.length o] at this
+    omega
+  have hnd : (ownP p ++ (cmdsFor done.length sus asgs).asgs.flatMap (·.ops)).Nodup := by
+    rw [hcm]
+    apply (nodup_iff_count_le_one _).mpr
+    intro o
+    have := hcount o
+    show (ownP p ++ opsOf (asgs.filter (·.pool == done.length))).count o ≤ 1
+    simp only [List.count_append] at this ⊢
+    omega
+  have hapend : AsgsOK s (cmdsFor done.length sus asgs).asgs := by
+    rw [hcm]
+    intro a ha
+    obtain ⟨ha1, ha2⟩ := List.mem_filter.mp ha
+    have hpe : a.pool = done.length := by simpa using ha2
+    exact hJ.pend a (List.mem_filter.mpr ⟨ha1, by simp only [decide_eq_true_eq]; omega⟩)
+  obtain ⟨l1, sh1', fr1'⟩ := poolTick_live gp lp hapend hnd hp
+  have sh1 : Shrinks (ownP p1) (ownP p ++ opsOf (asgs.filter (·.pool == done.length))) := sh1'
+  have fr1 : ∀ o, o ∉ ownP p ++ opsOf (asgs.filter (·.pool == done.length)) → s1.stOf o = s.stOf o := fr1'
+  obtain ⟨g1, hn1⟩ := poolGoodMem_tick.ok _ _ _ _ _ _ _ _ _ gp hp
+  have hsegs : ∀ r, s1.segsOf r = s.segsOf r := by
+    intro r
+    have := (poolTick_steps_ok hp).ops
+    unfold Store.segsOf; rw [this]
+  -- operators owned elsewhere are outside the footprint of this pool's tick
+  have houtside : ∀ o, (done.flatMap ownP).count o + (rest.flatMap ownP).count o + (opsOf (pendFor asgs (done.length + 1))).count o ≥ 1 →
+      s1.stOf o = s.stOf o := by
+    intro o ho
+    apply fr1
+    intro hx
+    have h1 : 1 ≤ (ownP p ++ opsOf (asgs.filter (·.pool == done.length))).count o := List.one_le_count_iff.mpr hx
+    have := hcount o
+    simp only [List.count_append] at h1 this
+    omega
+  refine ⟨?_, hn1, houtside⟩
+  refine ⟨?_, ?_, ?_⟩
+  · intro q hq
+    have hq' : q ∈ done ∨ q = p1 ∨ q ∈ rest := by simpa [List.mem_append, or_assoc] using hq
+    rcases hq' with hq' | rfl | hq'
+    · obtain ⟨gq, lq⟩ := hJ.pools q (by simp [hq'])
+      refine ⟨poolGoodMem_tick.mono _ _ _ _ gq hn1, poolLive_frame lq ?_⟩
+      intro o ho
+      apply houtside
+      have := count_le_flatMap ownP done q hq' o
+      have : 1 ≤ (ownP q).count o := List.one_le_count_iff.mpr ho
+      omega
+    · exact ⟨g1, l1⟩
+    · obtain ⟨gq, lq⟩ := hJ.pools q (by simp [hq'])
+      refine ⟨poolGoodMem_tick.mono _ _ _ _ gq hn1, poolLive_frame lq ?_⟩
+      intro o ho
+      apply houtside
+      have := count_le_flatMap ownP rest q hq' o
+      have : 1 ≤ (ownP q).count o := List.one_le_count_iff.mpr ho
+      omega
+  · apply (nodup_iff_count_le_one _).mpr
+    intro o
+    have := hcount o
+    have hs := sh1 o
+    simp only [List.length_append, List.length_cons, List.length_nil, List.flatMap_append, List.flatMap_cons, List.flatMap_nil, List.append_nil,
+      List.count_append, Nat.zero_add] at this hs ⊢
+    omega
+  · simp only [List.length_append, List.length_cons, List.length_nil]
+    intro a ha
+    obtain ⟨ha1, ha2⟩ := List.mem_filter.mp ha
+    have hle : done.length + 1 ≤ a.pool := by simpa using ha2
+    obtain ⟨x1, x2⟩ := hJ.pend a (List.mem_filter.mpr ⟨ha1, by simp only [decide_eq_true_eq]; omega⟩)
+    refine ⟨x1, fun r hr => ⟨by rw [hsegs]; exact (x2 r hr).1, ?_⟩⟩
+    rw [houtside r ?_]
+    · exact (x2 r hr).2
+    · have : 1 ≤ (opsOf (pendFor asgs (done.length + 1))).count r := by
+        apply List.one_le_count_iff.mpr
+        exact List.mem_flatMap.mpr ⟨a, ha, hr⟩
+      omega
+
+
 theorem execPools_live (cfg : Cfg) (sus : List (Nat × Nat)) (asgs : List Asg) :
     ∀ (todo : List Pool) (s : Store) (n : Nat) (done : List Pool) (res : List Res) (s' : Store) (ps : List Pool) (n' : Nat) (res' : List Res),
     PoolsLive cfg asgs s n done todo → execPools cfg sus asgs s n done todo res = .ok (s', ps, n', res') →
@@ -1224,86 +1337,6 @@ theorem execPools_live (cfg : Cfg) (sus : List (Nat × Nat)) (asgs : List Asg) :
     · cases h
     · cases h
     · rename_i s1 p1 n1 r hp
-      obtain ⟨gp, lp⟩ := hJ.pools p (by simp)
-      have hcm : (cmdsFor done.length sus asgs).asgs = asgs.filter (·.pool == done.length) := rfl
-      have hglob := (nodup_iff_count_le_one _).mp hJ.nd
-      -- counts in the global list
-      have hcount : ∀ o, (done.flatMap ownP).count o + (ownP p).count o + (rest.flatMap ownP).count o +
-          ((opsOf (asgs.filter (·.pool == done.length))).count o + (opsOf (pendFor asgs (done.length + 1))).count o) ≤ 1 := by
-        intro o
-        have := hglob o
-        simp only [List.flatMap_append, List.flatMap_cons, List.count_append, count_pend_split asgs done.length o] at this
-        omega
-      have hnd : (ownP p ++ (cmdsFor done.length sus asgs).asgs.flatMap (·.ops)).Nodup := by
-        rw [hcm]
-        apply (nodup_iff_count_le_one _).mpr
-        intro o
-        have := hcount o
-        show (ownP p ++ opsOf (asgs.filter (·.pool == done.length))).count o ≤ 1
-        simp only [List.count_append] at this ⊢
-        omega
-      have hapend : AsgsOK s (cmdsFor done.length sus asgs).asgs := by
-        rw [hcm]
-        intro a ha
-        obtain ⟨ha1, ha2⟩ := List.mem_filter.mp ha
-        have hpe : a.pool = done.length := by simpa using ha2
-        exact hJ.pend a (List.mem_filter.mpr ⟨ha1, by simp only [decide_eq_true_eq]; omega⟩)
-      obtain ⟨l1, sh1', fr1'⟩ := poolTick_live gp lp hapend hnd hp
-      have sh1 : Shrinks (ownP p1) (ownP p ++ opsOf (asgs.filter (·.pool == done.length))) := sh1'
-      have fr1 : ∀ o, o ∉ ownP p ++ opsOf (asgs.filter (·.pool == done.length)) → s1.stOf o = s.stOf o := fr1'
-      obtain ⟨g1, hn1⟩ := poolGoodMem_tick.ok _ _ _ _ _ _ _ _ _ gp hp
-      have hsegs : ∀ r, s1.segsOf r = s.segsOf r := by
-        intro r
-        have := (poolTick_steps_ok hp).ops
-        unfold Store.segsOf; rw [this]
-      -- operators owned elsewhere are outside the footprint of this pool's tick
-      have houtside : ∀ o, (done.flatMap ownP).count o + (rest.flatMap ownP).count o + (opsOf (pendFor asgs (done.length + 1))).count o ≥ 1 →
-          s1.stOf o = s.stOf o := by
-        intro o ho
-        apply fr1
-        intro hx
-        have h1 : 1 ≤ (ownP p ++ opsOf (asgs.filter (·.pool == done.length))).count o := List.one_le_count_iff.mpr hx
-        have := hcount o
-        simp only [List.count_append] at h1 this
-        omega
-      apply ih s1 n1 (done ++ [p1]) (res ++ r) s' ps n' res' ?_ h
-      refine ⟨?_, ?_, ?_⟩
-      · intro q hq
-        have hq' : q ∈ done ∨ q = p1 ∨ q ∈ rest := by simpa [List.mem_append, or_assoc] using hq
-        rcases hq' with hq' | rfl | hq'
-        · obtain ⟨gq, lq⟩ := hJ.pools q (by simp [hq'])
-          refine ⟨poolGoodMem_tick.mono _ _ _ _ gq hn1, poolLive_frame lq ?_⟩
-          intro o ho
-          apply houtside
-          have := count_le_flatMap ownP done q hq' o
-          have : 1 ≤ (ownP q).count o := List.one_le_count_iff.mpr ho
-          omega
-        · exact ⟨g1, l1⟩
-        · obtain ⟨gq, lq⟩ := hJ.pools q (by simp [hq'])
-          refine ⟨poolGoodMem_tick.mono _ _ _ _ gq hn1, poolLive_frame lq ?_⟩
-          intro o ho
-          apply houtside
-          have := count_le_flatMap ownP rest q hq' o
-          have : 1 ≤ (ownP q).count o := List.one_le_count_iff.mpr ho
-          omega
-      · apply (nodup_iff_count_le_one _).mpr
-        intro o
-        have := hcount o
-        have hs := sh1 o
-        simp only [List.length_append, List.length_cons, List.length_nil, List.flatMap_append, List.flatMap_cons, List.flatMap_nil, List.append_nil,
-          List.count_append, Nat.zero_add] at this hs ⊢
-        omega
-      · simp only [List.length_append, List.length_cons, List.length_nil]
-        intro a ha
-        obtain ⟨ha1, ha2⟩ := List.mem_filter.mp ha
-        have hle : done.length + 1 ≤ a.pool := by simpa using ha2
-        obtain ⟨x1, x2⟩ := hJ.pend a (List.mem_filter.mpr ⟨ha1, by simp only [decide_eq_true_eq]; omega⟩)
-        refine ⟨x1, fun r hr => ⟨by rw [hsegs]; exact (x2 r hr).1, ?_⟩⟩
-        rw [houtside r ?_]
-        · exact (x2 r hr).2
-        · have : 1 ≤ (opsOf (pendFor asgs (done.length + 1))).count r := by
-            apply List.one_le_count_iff.mpr
-            exact List.mem_flatMap.mpr ⟨a, ha, hr⟩
-          omega
+      exact ih s1 n1 (done ++ [p1]) (res ++ r) s' ps n' res' (poolsLive_step hJ hp).1 h
 
 end Eudoxia
